@@ -1650,6 +1650,11 @@ class RawAlgorithmsMixIn:
         if out is None:
             raise NotImplementedError('should implement that')
 
+        if not numpy.shares_memory(ybar_data, out):
+            # reshape had to copy x (non-contiguous data), hence ybar is not
+            # a view of xbar and has to be accumulated explicitly
+            out += numpy.reshape(ybar_data, x_data.shape)
+
         return numpy.reshape(out, x_data.shape)
 
     @classmethod
